@@ -563,12 +563,27 @@ theorem threads_nonpositive_fails :
 
 /-! ## the facts about the source the model assumes (regenerated on every run: harness/c10/extract.go) -/
 
-/-- The comparisons (operators and bounds) and the numeric literals of `FBP`, `MinTransferDist`, `minTransferDistRecur`,
+/-- The comparisons (as predicates: `Cmp.same`) and the numeric literals of `FBP`, `MinTransferDist`, `minTransferDistRecur`,
     `speciesToMoveRecursive`, `TBE`, `ReformatAvgDistance`, `NormalizeTransferDistancesByDepth`,
     `UpdateTaxaMoveArrays`, what `classical` and `booster` call (readers, `ReinitIndexes` before `TBE`,
     argument order, raw tree first), the defaults of the flags and `NIL_SUPPORT`, as extracted from the
     working tree, are the ones the model was written against (Model/C10Table.lean `expected`). -/
-theorem sourceFactsCheck : Gen.C10.facts = expected := by decide
+theorem sourceFactsCheck : Gen.C10.facts.agree expected = true := by decide +kernel
+
+/-- The comparison rows are judged as predicates, not as text: `cpus <= 0`, `1 > cpus`, `!(cpus >= 1)`-style
+    rewrites of `cpus < 1` with another spelling of the variable agree; `cpus < 2` or `cpus <= 1` do not;
+    integer division truncates as in Go.  A comparison of two variables is judged up to their exchange (their
+    numbering follows their spelling): a reversed `d < *dist` is left to the oracle, which every case exercises. -/
+theorem cmp_rows_semantic :
+    Cmp.same ⟨"<", .var 0, .lit 1, "_ < 1"⟩ ⟨"<=", .var 0, .lit 0, "_ <= 0"⟩ = true ∧
+    Cmp.same ⟨"<", .var 0, .lit 1, "_ < 1"⟩ ⟨">", .lit 1, .var 0, "1 > _"⟩ = true ∧
+    Cmp.same ⟨"<", .var 1, .var 0, "_ < _"⟩ ⟨">", .var 1, .var 0, "_ > _"⟩ = true ∧
+    Cmp.same ⟨"<", .var 0, .lit 1, "_ < 1"⟩ ⟨"<", .var 0, .lit 2, "_ < 2"⟩ = false ∧
+    Cmp.same ⟨"<", .var 0, .lit 1, "_ < 1"⟩ ⟨"<=", .var 0, .lit 1, "_ <= 1"⟩ = false ∧
+    Cmp.same ⟨"<", .var 1, .var 0, "_ < _"⟩ ⟨"<=", .var 1, .var 0, "_ <= _"⟩ = false ∧
+    Cmp.same ⟨">", .var 1, .div (.var 0) (.lit 2), "_ > _ / 2"⟩ ⟨">=", .var 1, .div (.var 0) (.lit 2), "_ >= _ / 2"⟩ = false ∧
+    Cmp.same ⟨"!=", .var 0, .opaque "NIL_SUPPORT", "_ != NIL_SUPPORT"⟩ ⟨"==", .var 0, .opaque "NIL_SUPPORT", "_ == NIL_SUPPORT"⟩ = false := by
+  decide +kernel
 
 /-! ## TBE with its output options (Model/C10Opts.lean; op C10.logx) -/
 
